@@ -130,3 +130,23 @@ def validate(chk, scratch, spec_dir, module, cfg, trace_path, what, sig_of=None,
     chk.violation(sig, "%s: event %d of %d is not allowed by %s: %s" % (what, matched + 1, total, module, json.dumps(bad)[:400]),
                   {"trace_prefix": events[max(0, matched - 30):matched + 1], "spec": module, "cfg": cfg})
     return False
+
+
+class Observing:
+    """Proxy of a Check for growth stages (behaviour outside the listed property): signatures prefixed 'observation:' are counted
+    in the evidence, not alarmed; anything else is passed on."""
+    def __init__(self, chk):
+        self.__dict__["chk"] = chk
+        self.__dict__["seen"] = {}
+
+    def __getattr__(self, k):
+        return getattr(self.chk, k)
+
+    def __setattr__(self, k, v):
+        setattr(self.chk, k, v)
+
+    def violation(self, sig, detail, payload=None):
+        if sig.startswith("observation:"):
+            self.seen[sig] = self.seen.get(sig, 0) + 1
+            return
+        self.chk.violation(sig, detail, payload)
